@@ -65,4 +65,12 @@ def suite_types(ctx):
     return s
 
 
-SUITES = [suite_enc, suite_types]
+def suite_ddd_widths(ctx):
+    """dynamic definitions by memory address whose entries disagree on the widths, or whose values do not fit them, send nothing (the C14 suite, run here for its refusal half)"""
+    from . import c14
+    s = c14.suite_ddd(ctx)
+    s.name = 'ddd_widths'
+    return s
+
+
+SUITES = [suite_enc, suite_types, suite_ddd_widths]
